@@ -10,6 +10,9 @@
 extern "C" {
 #include "varintDimension.h"
 }
+#ifdef SIM_HAVE_F16C
+#include <immintrin.h>
+#endif
 
 namespace {
 using namespace sim;
@@ -59,9 +62,12 @@ class MatrixHist : public Engine {
             rows = value_of_width(r, (unsigned)r.below(9));
             cols = value_of_width(r, (unsigned)r.range(1, 8));
         }
-        static const char *kinds[] = {"bit", "bit", "unsigned", "unsigned", "unsigned", "float", "double"};
+        static const char *kinds[] = {"bit", "bit", "unsigned", "unsigned", "unsigned", "float", "double", "half"};
         std::string kind = r.pick(kinds);
-        unsigned ew = kind == "unsigned" ? (unsigned)r.range(1, 8) : kind == "float" ? 4 : kind == "double" ? 8 : 0;
+#ifndef SIM_HAVE_F16C
+        if (kind == "half") kind = "float"; // half-float entries need a build that defines __F16C__
+#endif
+        unsigned ew = kind == "unsigned" ? (unsigned)r.range(1, 8) : kind == "float" ? 4 : kind == "double" ? 8 : kind == "half" ? 2 : 0;
         p.set_knob("rows", std::to_string(rows));
         p.set_knob("cols", std::to_string(cols));
         p.set_knob("kind", kind);
@@ -161,6 +167,14 @@ class MatrixHist : public Engine {
         if (kind == "unsigned" && ew == 0) ew = 1;
         if (kind == "float") ew = 4;
         if (kind == "double") ew = 8;
+        if (kind == "half") ew = 2;
+#ifndef SIM_HAVE_F16C
+        if (kind == "half") {
+            out.cls = "skip";
+            out.detail = "half-float entries are not compiled into this build";
+            return out;
+        }
+#endif
         unsigned rw = width_of(rows), cw = width_of(cols);
         size_t H = rw + cw;
         uint64_t cells = 0;
@@ -311,6 +325,14 @@ class MatrixHist : public Engine {
                             memcpy(&f, &b32, 4);
                             varintDimensionPairEntrySetFloat(buf, row, col, f, dim);
                             memcpy(&image[off], &b32, 4);
+#ifdef SIM_HAVE_F16C
+                        } else if (kind == "half") {
+                            // a finite float of moderate magnitude; the cell must hold its IEEE half conversion
+                            float f = (float)((double)(int64_t)(v % 200001) - 100000.0) / 64.0f;
+                            varintDimensionPairEntrySetFloatHalf(buf, row, col, f, dim);
+                            uint16_t h = _cvtss_sh(f, 0);
+                            memcpy(&image[off], &h, 2);
+#endif
                         } else {
                             double dv;
                             memcpy(&dv, &v, 8);
@@ -327,6 +349,19 @@ class MatrixHist : public Engine {
                     else if (kind == "float") {
                         float f = varintDimensionPairEntryGetFloat(buf, row, col, dim);
                         memcpy(&got_v, &f, 4);
+#ifdef SIM_HAVE_F16C
+                    } else if (kind == "half") {
+                        // compare in float: the cell's half value widened
+                        float f = varintDimensionPairEntryGetFloatHalf(buf, row, col, dim);
+                        uint16_t h;
+                        memcpy(&h, &image[off], 2);
+                        float wf = _cvtsh_ss(h);
+                        uint32_t a = 0, b = 0;
+                        memcpy(&a, &f, 4);
+                        memcpy(&b, &wf, 4);
+                        got_v = a;
+                        want_v = b;
+#endif
                     } else {
                         double dv = varintDimensionPairEntryGetDouble(buf, row, col, dim);
                         memcpy(&got_v, &dv, 8);
